@@ -66,6 +66,12 @@ func c11Snapshot(e *c11Env) map[string]string {
 			return nil
 		}
 		rel, _ := filepath.Rel(e.root, p)
+		// the store roots are always reported as store/upload and store/cache, wherever the layout puts them
+		for _, m := range [][2]string{{e.upload, "store/upload"}, {e.cache, "store/cache"}} {
+			if p == m[0] || strings.HasPrefix(p, m[0]+"/") {
+				rel = m[1] + p[len(m[0]):]
+			}
+		}
 		if info.IsDir() {
 			snap[rel] = "d"
 			return nil
@@ -101,7 +107,12 @@ func c11Diff(a, b map[string]string) string {
 	return verifh.List(out)
 }
 
-func c11NewEnv(t *testing.T) *c11Env {
+// c11NewEnv builds the store tree.  layout "std": <root>/store/{upload,cache} with sentinels at every level.
+// layout "bare-slash" | "bare-dslash" | "bare-dot": the store roots sit alone in otherwise EMPTY parent
+// directories (<root>/nest/u/upload, <root>/nest/c/cache, no sentinel inside them) and are handed to the store in
+// a form that is not filepath.Clean (trailing slash as in the shipped config/*/base.yaml, a doubled separator, a
+// "./" segment): anything that prunes or walks directories must still stop at the store root.
+func c11NewEnv(t *testing.T, layout string) *c11Env {
 	root, err := os.MkdirTemp("", "verif-c11-tag-")
 	if err != nil {
 		panic(err)
@@ -109,24 +120,44 @@ func c11NewEnv(t *testing.T) *c11Env {
 	e := &c11Env{root: root, storeDir: filepath.Join(root, "store")}
 	e.upload = filepath.Join(e.storeDir, "upload")
 	e.cache = filepath.Join(e.storeDir, "cache")
+	cfgUpload, cfgCache := e.upload, e.cache
+	bare := strings.HasPrefix(layout, "bare")
+	if bare {
+		e.upload = filepath.Join(root, "nest", "u", "upload")
+		e.cache = filepath.Join(root, "nest", "c", "cache")
+		switch layout {
+		case "bare-dslash":
+			cfgUpload, cfgCache = root+"/nest//u/upload", root+"/nest//c/cache"
+		case "bare-dot":
+			cfgUpload, cfgCache = root+"/./nest/u/upload", root+"/nest/c/./cache"
+		default:
+			cfgUpload, cfgCache = e.upload+"/", e.cache+"/"
+		}
+	}
 	for _, d := range []string{e.upload, e.cache} {
 		if err := os.MkdirAll(d, 0775); err != nil {
 			panic(err)
 		}
 	}
 	os.WriteFile(filepath.Join(root, "outer-sentinel"), []byte("outer"), 0644)
-	os.WriteFile(filepath.Join(e.storeDir, "sentinel"), []byte("inner"), 0644)
+	if !bare {
+		os.WriteFile(filepath.Join(e.storeDir, "sentinel"), []byte("inner"), 0644)
+	}
 	e.stop = append(e.stop, func() { os.RemoveAll(root) })
 
 	ctrl := gomock.NewController(t)
-	ss, err := store.NewSimpleStore(store.SimpleStoreConfig{UploadDir: e.upload, CacheDir: e.cache}, tally.NoopScope)
+	ss, err := store.NewSimpleStore(store.SimpleStoreConfig{UploadDir: cfgUpload, CacheDir: cfgCache}, tally.NoopScope)
 	if err != nil {
 		panic(err)
 	}
 	e.stop = append(e.stop, ss.Close)
 	// files that a mis-resolved entry would alias, at every level
-	for _, d := range []string{root, e.storeDir, e.upload, e.cache} {
-		os.WriteFile(filepath.Join(d, "data"), []byte(c11SentinelDigest), 0644)
+	if bare {
+		os.WriteFile(filepath.Join(root, "data"), []byte(c11SentinelDigest), 0644)
+	} else {
+		for _, d := range []string{root, e.storeDir, e.upload, e.cache} {
+			os.WriteFile(filepath.Join(d, "data"), []byte(c11SentinelDigest), 0644)
+		}
 	}
 	backends := backend.ManagerFixture()
 	bc := mockbackend.NewMockClient(ctrl)
@@ -192,9 +223,15 @@ func c11Do(method, addr, rawPath string, body ...string) string {
 }
 
 func c11TagExec(t *testing.T, tr *verifh.T, c verifh.Case) {
-	e := c11NewEnv(t)
+	layout := "std"
+	for _, k := range c.Cfg {
+		if strings.HasPrefix(k, "layout=") {
+			layout = k[len("layout="):]
+		}
+	}
+	e := c11NewEnv(t, layout)
 	defer e.close()
-	tr.Cfg()
+	tr.Cfg("layout=" + layout)
 	const digest = "sha256:2222222222222222222222222222222222222222222222222222222222222222"
 	for _, op := range c.Ops {
 		if len(op) != 3 || op[0] != "op" {
@@ -281,6 +318,19 @@ func TestVerif_C11TagServer(t *testing.T) {
 			tr.Count("exhaustive_pairs_cases", 2)
 		}
 	}
+	// (a') nested names (a separator after unescaping: the temporary upload entry and the cache entry live below
+	// sub-directories that are created and pruned) under store roots that are not in filepath.Clean form and
+	// stand alone in empty parent directories
+	nested := []string{"library%2Fbusybox:latest", "a%2Fb", "a%2Fb%2Fc%2Fd", "repo%2Fx.y", "a%252Fb", "plain"}
+	for _, layout := range []string{"bare-slash", "bare-dslash", "bare-dot"} {
+		for _, sg := range nested {
+			c11TagExec(t, tr, verifh.Case{Cfg: []string{"layout=" + layout}, Ops: [][]string{
+				op("put", sg), op("get", sg), op("put", sg), op("dupput", sg), op("replicate", sg)}})
+			tr.Count("nonclean_root_cases", 1)
+		}
+		c11TagExec(t, tr, verifh.Case{Cfg: []string{"layout=" + layout}, Ops: [][]string{
+			op("put", nested[0]), op("put", nested[1]), op("get", nested[0]), op("put", ".."), op("put", nested[2]), op("get", nested[2])}})
+	}
 	// (b) random sequences
 	r := verifh.NewRand(verifh.Seed(), "c11tag")
 	for i := 0; i < verifh.Scale(150, 6000); i++ {
@@ -293,6 +343,9 @@ func TestVerif_C11TagServer(t *testing.T) {
 			}
 			used = append(used, s)
 			c.Ops = append(c.Ops, op(r.Pick("put", "get", "put", "dupput", "head", "replicate", "get"), s))
+		}
+		if r.Chance(1, 4) {
+			c.Cfg = []string{"layout=" + r.Pick("bare-slash", "bare-dslash", "bare-dot")}
 		}
 		c11TagExec(t, tr, c)
 		tr.Count("random_cases", 1)
